@@ -188,6 +188,11 @@ func Effect(name string, args ...interface{}) { logLine("effect %s", name) }
 func Unwind(n int)                            {}
 func GoInline(on bool)                        {}
 
+// GoLogical(true): goroutines started by the code under test run as logical goroutines (symbolic side):
+// at once, until they finish or need a mutex somebody else holds; then they are parked and resumed at
+// the release.  Natively a no-op: they are real goroutines.
+func GoLogical(on bool) {}
+
 // JSONArbitrary(false): payloads that were not produced by json.Marshal on this run decode as error or
 // null only (the "arbitrary content" alternative of the decoder model is switched off).
 func JSONArbitrary(on bool) {}
